@@ -29,6 +29,7 @@ CONFIGS = [
 ]
 AUDIT_MOD = 7
 MAX_STORED_PER_SIG = 4
+UNKNOWN_NAME_SET = {n for _, n in wiregen.UNKNOWN_NAMES}
 
 ROOT = "chuk_mcp.protocol.messages.roots.send_messages:Root"
 COMPLETION = "chuk_mcp.protocol.messages.completions.send_messages:CompletionResult"
@@ -268,6 +269,8 @@ def compare(case: Dict[str, Any], ap: Dict[str, Any], af: Dict[str, Any]) -> Dic
             sig = {"class": "id-type-changed", "backend": "fallback", "change": how.split(" ", 1)[1], "model": model}
         else:
             sig = {"class": "dump-differs", "model": model, "field": np_, "how": how, **extra}
+            if np_.rpartition(".")[2] in UNKNOWN_NAME_SET or np_ in UNKNOWN_NAME_SET:
+                sig["unknown_member"] = wiregen.name_kind(np_.rpartition(".")[2])
         viol.append((sig, f"{head}: dumps differ at '{p}' ({how}): Pydantic {json.dumps(_at(dp, p), ensure_ascii=True)[:120]} "
                           f"fallback {json.dumps(_at(df, p), ensure_ascii=True)[:120]}"))
     return {"status": "agree" if not viol else "disagree", "violations": viol}
